@@ -38,7 +38,7 @@ ASSUMPTIONS = [
 
 DAG_OPS = ["dup_output", "output_is_param", "cycle", "inconsistent_defaults", "run_missing", "run_surplus", "map_missing", "map_surplus"]
 MAP_OPS = [
-    "mapspec_nonparam", "mapspec_output_mismatch", "axis_rank", "axis_swap", "bound_in_mapspec",
+    "mapspec_nonparam", "mapspec_output_mismatch", "axis_rank", "axis_swap", "axis_conflict_3specs", "bound_in_mapspec",
     "missing_input", "surplus_input", "input_rank", "zip_mismatch", "nested_list_2d",
     "unknown_storage", "unknown_storage_per_output", "executor_parallel_false", "missing_internal_shape",
     "fixed_unknown", "fixed_out_of_range", "fixed_reduced",
@@ -220,8 +220,16 @@ def body_map(data) -> Outcome:
         def remap(prog2=None, inputs2=None, **kw):
             p = pipe if prog2 is None else mp.build_pipeline(prog2, log)
             args = dict(run_folder=folder, internal_shapes=ish, parallel=False, storage=storage, cleanup=False)
+            if prog2 is not None:
+                # a structurally different pipeline would be refused anyway because it does not match the previous
+                # run in the folder; to test the *validation* it goes into a fresh folder instead
+                args.update(run_folder=boot.fresh_path("c12new"), cleanup=True)
             args.update(kw)
-            p.map(inputs if inputs2 is None else inputs2, **args)
+            try:
+                p.map(inputs if inputs2 is None else inputs2, **args)
+            finally:
+                if prog2 is not None:
+                    boot.rm(str(args["run_folder"]))
 
         def na():
             out.labels = ["n/a:" + op]
@@ -238,7 +246,7 @@ def body_map(data) -> Outcome:
             left, right = ms.split(" -> ")
             left = f"zz_nope[{idx}]" if left == "..." else left + f", zz_nope[{idx}]"
             expect_rejection(out, op, log, lambda: _build_with_mapspec(p2, fn["name"], left + " -> " + right, log).map(
-                inputs, run_folder=folder, internal_shapes=ish, parallel=False, storage=storage, cleanup=False), folder, before)
+                inputs, run_folder=boot.fresh_path("c12new"), internal_shapes=ish, parallel=False, storage=storage), folder, before)
         elif op == "mapspec_output_mismatch":
             if not ms_funcs:
                 return na()
@@ -248,7 +256,7 @@ def body_map(data) -> Outcome:
             left, right = ms.split(" -> ")
             right = right.replace(fn["outs"][0] + "[", "wrong_out[", 1)
             expect_rejection(out, op, log, lambda: _build_with_mapspec(p2, fn["name"], left + " -> " + right, log).map(
-                inputs, run_folder=folder, internal_shapes=ish, parallel=False, storage=storage, cleanup=False), folder, before)
+                inputs, run_folder=boot.fresh_path("c12new"), internal_shapes=ish, parallel=False, storage=storage), folder, before)
         elif op in ("axis_rank", "axis_swap"):
             # a consumer spec of an array that also has a producer spec (or another consumer spec)
             prod = mp.func_of_output(prog)
@@ -260,12 +268,16 @@ def body_map(data) -> Outcome:
                     if p_["spec"] is None:
                         continue
                     others = sum(1 for g in funcs if g["mapspec"] for q in g["params"] if q["name"] == p_["name"] and q["spec"] is not None)
-                    produced = p_["name"] in prod and prod[p_["name"]]["out_axes"]
+                    produced = p_["name"] in prod and prod[p_["name"]]["out_axes"] and prod[p_["name"]]["mapspec"]
                     if op == "axis_rank" and (produced or others >= 2):
                         cands.append((fi, pi))
                     if op == "axis_swap" and (produced or others >= 2):
                         named = [a for a in p_["spec"] if a is not None]
-                        if len(set(named)) >= 2 and len(named) == len(p_["spec"]):
+                        # another spec (or the producer) must *name* one of the two positions that get swapped
+                        other_specs = [q["spec"] for g in funcs if g["mapspec"] for q in g["params"]
+                                       if q["name"] == p_["name"] and q["spec"] is not None and q is not p_]
+                        pinned = produced or any(sp[0] is not None or sp[1] is not None for sp in other_specs if len(sp) >= 2)
+                        if len(set(named)) >= 2 and len(named) == len(p_["spec"]) and p_["spec"][0] != p_["spec"][1] and pinned:
                             cands.append((fi, pi))
             if not cands:
                 return na()
@@ -278,13 +290,40 @@ def body_map(data) -> Outcome:
             else:
                 spec[0], spec[1] = spec[1], spec[0]
             expect_rejection(out, op, log, lambda: remap(p2), folder, before)
+        elif op == "axis_conflict_3specs":
+            # three specs for one >= 2-D root: the existing fully named one, one with ':' at position k, and one that
+            # names position k differently (same size) -> the array's axis name is ambiguous and must be rejected
+            cands = []
+            for f in ms_funcs:
+                for p_ in f["params"]:
+                    if p_["spec"] and len(p_["spec"]) >= 2 and all(a is not None for a in p_["spec"]) and p_["name"] in inputs:
+                        cands.append((p_["name"], list(p_["spec"])))
+            if not cands:
+                return na()
+            arr, spec = cands[pick % len(cands)]
+            k = (pick // 5) % len(spec)
+            other = spec[(k + 1) % len(spec)]
+            p2 = copy.deepcopy(prog)
+            fresh = "zq"  # a new index name with the same size as the one it contradicts
+            p2["sizes"][fresh] = p2["sizes"][spec[k]]
+            colon = [a if i != k else None for i, a in enumerate(spec)]
+            renamed = [a if i != k else fresh for i, a in enumerate(spec)]
+            mk = lambda name, sp, out_axes: {"name": name, "outs": ["x_" + name], "picker": None, "mapspec": True,  # noqa: E731
+                                             "params": [{"name": arr, "spec": sp}], "out_axes": out_axes, "int_axes": [],
+                                             "ret": "list", "shape_via": "map"}  # fmt: skip
+            extra = [mk("fc", colon, [a for a in colon if a is not None]), mk("fr", renamed, renamed)]
+            if pick % 2:
+                extra.reverse()
+            p2["funcs"] += extra
+            del other
+            expect_rejection(out, op, log, lambda: remap(p2), folder, before)
         elif op == "bound_in_mapspec":
             cands = [(f["name"], p_["name"]) for f in ms_funcs for p_ in f["params"] if p_["spec"] is not None]
             if not cands:
                 return na()
             fname, pname = cands[pick % len(cands)]
             expect_rejection(out, op, log, lambda: mp.build_pipeline(prog, log, pf_extra={fname: {"bound": {pname: "B"}}}).map(
-                inputs, run_folder=folder, internal_shapes=ish, parallel=False, storage=storage, cleanup=False), folder, before)
+                inputs, run_folder=boot.fresh_path("c12new"), internal_shapes=ish, parallel=False, storage=storage), folder, before)
         elif op == "missing_input":
             if not inputs:
                 return na()
@@ -344,7 +383,8 @@ def body_map(data) -> Outcome:
             ex = ThreadPoolExecutor(1)
             expect_rejection(out, op, log, lambda: remap(executor=ex, parallel=False), folder, before)
         elif op == "missing_internal_shape":
-            cands = [f for f in funcs if f["int_axes"]]
+            indexed = {p_["name"] for g in ms_funcs for p_ in g["params"] if p_["spec"] is not None}
+            cands = [f for f in funcs if f["int_axes"] and (f["mapspec"] or set(f["outs"]) & indexed)]
             if not cands:
                 return na()
             fn = cands[pick % len(cands)]
